@@ -68,13 +68,24 @@ Section StepR.
 
   Theorem terminal_zero_step U psi eps gamma u dt muB dAdt out f :
     NoDup fixed -> In f fixed -> psi f = (0, 0) ->
-    step OpsR a n es fixed solve tlink U psi eps gamma u dt muB dAdt = Some out ->
+    step OpsR a n es fixed solve tlink None U psi eps gamma u dt muB dAdt = Some out ->
     so_psi _ out f = (0, 0).
   Proof.
     intros Hnd Hin Hz. unfold step, euler_all.
     destruct (forallb _ (seq 0 n)); [|discriminate].
     intros H. inversion H; subst; clear H. cbn [so_psi].
     rewrite (terminal_zero_site U psi eps gamma u dt f Hnd Hin Hz). reflexivity.
+  Qed.
+
+  (* a non-zero terminal value is re-imposed after the Euler update, so it is held exactly *)
+  Theorem pinned_value_held v U psi eps gamma u dt muB dAdt out f :
+    In f fixed ->
+    step OpsR a n es fixed solve tlink (Some v) U psi eps gamma u dt muB dAdt = Some out ->
+    so_psi _ out f = v.
+  Proof.
+    intros Hin. unfold step. destruct (euler_all _ _ _ _ _ _ _ _ _ _ _ _) as [p|]; [|discriminate].
+    intros H. inversion H; subst; clear H. cbn [so_psi].
+    rewrite (is_fixed_in fixed f Hin). reflexivity.
   Qed.
 
   (* the identity row feeds a NON-zero pinned value into the update: it is not held (defect F8;
@@ -164,7 +175,7 @@ Section Uniform.
   Theorem uniform_stationary gamma u dt :
     u <> 0 ->
     exists out,
-      step OpsR a n es [] solve tlink ones psi1 (fun _ => 1) gamma u dt (fun _ => 0) (fun _ => 0)
+      step OpsR a n es [] solve tlink None ones psi1 (fun _ => 1) gamma u dt (fun _ => 0) (fun _ => 0)
       = Some out /\
       (forall r, so_psi _ out r = (1, 0)) /\
       (forall r, ob_mu _ (so_obs _ out) r = 0) /\
@@ -274,8 +285,8 @@ Section StepCov.
 
   Theorem step_covariant U psi eps gamma u dt muB dAdt :
     length U = length es ->
-    match step OpsR a n es fixed solve tlink U psi eps gamma u dt muB dAdt,
-          step OpsR a n es fixed solve tlink (gauge_links gz es U) (gauge_psi gz psi) eps gamma u dt muB dAdt with
+    match step OpsR a n es fixed solve tlink None U psi eps gamma u dt muB dAdt,
+          step OpsR a n es fixed solve tlink None (gauge_links gz es U) (gauge_psi gz psi) eps gamma u dt muB dAdt with
     | None, None => True
     | Some o, Some o' =>
         (forall r, so_psi _ o' r = cxmul (gz r) (so_psi _ o r)) /\
